@@ -239,11 +239,11 @@ CLAIMED = {
 }
 # properties part of whose source is translated to Gallina on every run (harness/pytrans.py): (what, theorems about the generated defs)
 TRANSLATED = {
- 'C01': ('the matrix expressions of calc_rdm_euclidean / calc_rdm_correlation / calc_rdm_poisson (rdm/calc.py, from the condition '
+ 'C01': ('the matrix expressions of calc_rdm_euclidean / calc_rdm_correlation / calc_rdm_mahalanobis / calc_rdm_poisson (rdm/calc.py, from the condition '
          'means to the values handed to _build_rdms)',
          'the generated expressions equal, for every pair of conditions in row-major order, squared distance / P, 1 - Pearson r and '
          'the Poisson-KL formula on prior-regularised rates (for every number of conditions and channels; euclidean also for every '
-         'numeric structure, incl. the executable one)'),
+         'numeric structure, incl. the executable one); mahalanobis: difference\' * precision * difference / P for every symmetric precision'),
  'C05': ('the index arithmetic of sets_k_fold_pattern / sets_k_fold_rdm / sets_k_fold / sets_random and the group counts of '
          'sets_of_k_* (inference/crossvalsets.py), default_k_pattern / default_k_rdm (util/inference_util.py)',
          'the generated definitions equal the fold model for every group order, k and fold; every group is in exactly one test fold, '
@@ -258,6 +258,11 @@ TRANSLATED = {
          'exactly as often as it was drawn'),
  'C10': ('_get_n_from_length and _get_n_from_reduced_vectors (util/rdm_utils.py)',
          'the generated functions recover n from n(n-1)/2 for every n >= 1 (>= 2 without the lower bound)'),
+ 'C02': ('the kernel expressions of _calc_rdm_crossnobis_single and of the fold body of calc_rdm_poisson_cv (rdm/calc.py)',
+         'for every pair of conditions the generated expressions are (tr_a - tr_b) N (te_a - te_b)\' / P resp. the product of the rate '
+         'differences of one side with the log-rate differences of the other side / P: only between-fold products'),
+ 'C18': ('make_design (simulation/sim.py)',
+         'the generated design lists every condition exactly once per partition (observation p * n_cond + c is condition c of partition p)'),
  'C14': ('the shrinkage logic of _covariance_eye and _covariance_diag (data/noise.py, from the sums to the returned matrix)',
          'every entry of the generated results is a convex combination of the covariance entry with the target entry; the generated '
          'Schaefer-Strimmer intensity is in [0,1] for every input, the Ledoit-Wolf intensity min(d2,b2)/d2 for d2 > 0, b2 >= 0'),
@@ -303,7 +308,7 @@ m = dict(
     engines=[dict(name='coq-proof+correspondence', path='/verif/coq + /verif/harness',
                   serves_properties=[c['property_id'] for c in checks],
                   kind_free_text='Coq 8.16.1 theorems about a hand-written Gallina model; model tied to /repo by a '
-                  'correspondence check evaluated inside Coq (vm_compute) on every run, and for C01, C05, C06, C09, C10, C14 additionally by '
+                  'correspondence check evaluated inside Coq (vm_compute) on every run, and for C01, C02, C05, C06, C09, C10, C14, C18 additionally by '
                   'definitions translated from the source on every run with kernel-checked tie proofs')],
     checks=checks, not_applicable=na,
     notes='fix: commits in /repo and known findings are listed in /verif/known_findings.json; see DESIGN.md.')
